@@ -31,6 +31,7 @@ inductive HErr
   | streamError (cond : String)        -- a stream error sent by the peer, returned as such
   | invalidNamespace | unsupportedVersion | badFormat | improperAddressing
   | addrMismatch
+  | writeErr | ctxErr
   deriving DecidableEq, Repr
 
 def HErr.toString : HErr → String
@@ -40,6 +41,7 @@ def HErr.toString : HErr → String
   | .invalidNamespace => "stream:invalid-namespace" | .unsupportedVersion => "stream:unsupported-version"
   | .badFormat => "stream:bad-format" | .improperAddressing => "stream:improper-addressing"
   | .addrMismatch => "addrmismatch"
+  | .writeErr => "write" | .ctxErr => "ctx"
 
 /-- `stream.Info` (addresses as canonical strings, `""` = the zero JID) -/
 structure Info where
@@ -222,5 +224,62 @@ def negRun (recv ws s2s : Bool) (parseJid : String → Option String) :
     match negStep recv ws s2s parseJid a h with
     | .error e => [.error e]
     | .ok (a', i, o) => .ok (i, o) :: negRun recv ws s2s parseJid a' hs
+
+/-- the addresses the session reports when negotiation ends: those of the last header that
+was accepted; a header that is refused leaves them as they were -/
+def negEnd (recv ws s2s : Bool) (parseJid : String → Option String) :
+    Addrs → List (List HTok) → Addrs
+  | a, [] => a
+  | a, h :: hs =>
+    match negStep recv ws s2s parseJid a h with
+    | .error _ => a
+    | .ok (a', _, _) => negEnd recv ws s2s parseJid a' hs
+
+/-! ### the header exchange in a hostile environment -/
+
+/-- one write on a connection that accepts `b` more writes (`none`: healthy):
+the remaining budget, or `none` if the write fails -/
+def takeWrite : Option Nat → Option (Option Nat)
+  | none => some none
+  | some 0 => none
+  | some (b + 1) => some (some b)
+
+/-- `negRun` on a connection that fails after a number of writes and with a context that is
+done before the header with index `cancel` is awaited.  The context is looked at by
+`negotiateSession` after every negotiator step (feature negotiation; installing the tee
+connection when TeeIn/TeeOut are configured) and by `Expect` before it reads.  Receiving:
+expect, check, write the header, write the features list.  Initiating: write the header,
+expect, check — so a context that is already done when the very first stream starts is
+noticed only after the first header went out, unless the tee step comes first.  Apart from
+that TeeIn/TeeOut change nothing.  Returns the verdicts and the addresses the session reports
+at the end. -/
+def negRunE (recv ws s2s : Bool) (parseJid : String → Option String) (tee : Bool) (cancel : Option Nat) :
+    Nat → Option Nat → Addrs → List (List HTok) → List (Except HErr (Info × OutHdr)) × Addrs
+  | _, _, a, [] => ([], a)
+  | k, b, a, h :: hs =>
+    if recv then
+      if cancel = some k then ([.error .ctxErr], a) else
+      match negStep true ws s2s parseJid a h with
+      | .error e => ([.error e], a)
+      | .ok (a', i, o) =>
+        match takeWrite b with
+        | none => ([.error .writeErr], a')
+        | some b1 =>
+          match takeWrite b1 with
+          | none => ([.error .writeErr], a')
+          | some b2 =>
+            (.ok (i, o) :: (negRunE recv ws s2s parseJid tee cancel (k + 1) b2 a' hs).1,
+              (negRunE recv ws s2s parseJid tee cancel (k + 1) b2 a' hs).2)
+    else
+      if cancel = some k ∧ (0 < k ∨ tee = true) then ([.error .ctxErr], a) else
+      match takeWrite b with
+      | none => ([.error .writeErr], a)
+      | some b1 =>
+        if cancel = some k then ([.error .ctxErr], a) else
+        match negStep false ws s2s parseJid a h with
+        | .error e => ([.error e], a)
+        | .ok (a', i, o) =>
+          (.ok (i, o) :: (negRunE recv ws s2s parseJid tee cancel (k + 1) b1 a' hs).1,
+            (negRunE recv ws s2s parseJid tee cancel (k + 1) b1 a' hs).2)
 
 end XmppModel.StreamNeg
